@@ -44,6 +44,7 @@ type startEvent struct {
 	mch         chan imessage
 	once        sync.Once
 	activated   atomic.Bool
+	running     atomic.Bool
 	idGenerator id.IGenerator
 	satisfier   *logic.CatchEventSatisfier
 }
@@ -116,6 +117,13 @@ func (evt *startEvent) flow(ctx context.Context) {
 }
 
 func (evt *startEvent) ConsumeEvent(ev event.IEvent) (result event.ConsumptionResult, err error) {
+	if !evt.running.Load() {
+		// the node's event loop is not running (not triggered, its sub-process
+		// not entered): drop the event instead of filling the inbox and
+		// eventually blocking the caller forever
+		result = event.Consumed
+		return
+	}
 	evt.mch <- eventMessage{event: ev}
 	result = event.Consumed
 	return
@@ -124,6 +132,7 @@ func (evt *startEvent) ConsumeEvent(ev event.IEvent) (result event.ConsumptionRe
 func (evt *startEvent) Trigger(ctx context.Context) {
 	evt.once.Do(func() {
 		sender := evt.tracer.RegisterSender()
+		evt.running.Store(true)
 		go evt.run(ctx, sender)
 	})
 
@@ -133,6 +142,7 @@ func (evt *startEvent) Trigger(ctx context.Context) {
 func (evt *startEvent) NextAction(ctx context.Context, flow Flow) chan IAction {
 	evt.once.Do(func() {
 		sender := evt.tracer.RegisterSender()
+		evt.running.Store(true)
 		go evt.run(ctx, sender)
 	})
 
